@@ -157,6 +157,9 @@ func (w *haltWorld) bscStates(cs M) (exported.ClientState, exported.ConsensusSta
 		valBytes = nil
 	}
 	cst := &bsctypes.ClientState{Header: *h, ChainId: bscChainID, Epoch: epoch, BlockInteval: 3, Validators: valBytes, ContractAddress: []byte{1}, TrustingPeriod: 1_000_000_000}
+	if str(cs["shape"]) == "hugechainid" {
+		cst.ChainId = 1 << 63 // a chain id that does not fit a signed 64-bit integer
+	}
 	var cons exported.ConsensusState = &bsctypes.ConsensusState{Timestamp: h.Time, Height: h.Height, Root: h.Root}
 	if str(cs["shape"]) == "wrongcons" {
 		cons = &tsstypes.ConsensusState{}
